@@ -322,6 +322,10 @@ func (s *Sim) RunBlock(req *BlockReq, metas []TxMeta, src TxSource) *BlockRes {
 		if strings.Contains(pi.Value, "negative balance") {
 			s.Report(Violation{Property: "C02", Rule: "negative", Site: "balance-at-commit", Detail: firstLine(pi.Value), Height: req.Height, TxIndex: txi})
 		}
+		if strings.Contains(pi.Value, "cannot encode negative") {
+			// a negative stake / update / waitlist / fund value cannot be written: the node dies in Commit
+			s.Report(Violation{Property: "C02", Rule: "negative", Site: "value-at-commit", Detail: firstLine(pi.Value), Height: req.Height, TxIndex: txi})
+		}
 		if strings.Contains(pi.Value, "invariants error") {
 			s.Report(Violation{Property: "C01", Rule: "node-checker", Site: "invariants-error-at-commit", Detail: firstLine(pi.Value), Height: req.Height, TxIndex: txi})
 		}
